@@ -19,7 +19,7 @@ def base_cases(thorough):
   for gen in (families.c01_cases(False), families.c02_cases(False)):
     by = {}
     for c in gen: by.setdefault(c.family, []).append(c)
-    for fam, cs in by.items(): out += cs[::(step if fam not in ('EXPR', 'FUNC') else 1)]
+    for fam, cs in by.items(): out += [c for c in cs[::(step if fam not in ('EXPR', 'FUNC') else 1)] if 'main.' not in c.text()]      # schema-qualified names are tables of a database; C09 runs programs in fact form
   for i, c in enumerate(families.c04_cases(False)):
     if i % (60 if not thorough else 15) == 0: out.append(c)
   for c in families.c08_cases(False):
